@@ -107,6 +107,23 @@ CLAIMS = {
             "configuration, with position-distinct card numbers, are judged by TLC: masked value / first nine returned, "
             "clear number a substring of no returned value.",
             TB + "Numbers shorter than 10 and multi-character mask strings are outside the statement.", "3 C16"),
+    'C06': ("TLA+ composition spec (Trace_Ipm = Vbs reader/writer ; Iso8583 Layout/Reading, per-instance state) "
+            "evaluated by TLC on recorded multi-instance executions; interleavings enumerated by TLC (IpmMulti) and "
+            "replayed on real instances",
+            "TLC enumerates the interleavings of 2 writers and 2 readers (quick: 600 simulated schedules, thorough: all "
+            "25,200); each is replayed on real instances created up front (one reader hitting a bad record) and every "
+            "event is judged against that instance's own specification state. Files of 1..400 heterogeneous messages x 3 "
+            "codecs x {VBS,1014} x {packaged, generated} configuration are written and read back by the real code; TLC "
+            "judges file bytes (Frame/Finals of the encoded messages) and every yielded dict (Reading of its record).",
+            TB + "File objects are io.BytesIO.", "3 C06"),
+    'C10': ("TLA+ spec of error location (Trace_Ipm with loc: record number = yielded + 1, context = prefix + record / "
+            "CtxOk for framing faults) evaluated by TLC on the exhaustively enumerated fault matrix",
+            "Files of n = 1..4 records x every position k x 9 fault kinds (truncated record, oversized length, "
+            "undecodable MTI, unknown bit, bad field length, bad typed value, bad PDS, bad ICC, short message) x "
+            "blocked/unblocked x {latin_1, cp500} (thorough adds n up to 40 sampled) are read by the real IpmReader; "
+            "TLC judges the yielded prefix, the record number printed by print_exception_details and the context bytes.",
+            TB + "Faults are injected into records produced by the real encoder under the packaged configuration.",
+            "3 C10"),
 }
 
 PENDING = "check not built yet in this round (specification under construction; see DESIGN.md section 3)"
